@@ -189,6 +189,7 @@ def colouring(ctx):
     from .. import misc_guards
 
     misc_guards.colour_sentinel(ctx)
+    misc_guards.inverse_dof_map(ctx)  # the colouring reads a dof's elements from global2local
     m = ctx.repo.mod(SP)
     r = ctx.rule("PAR-COLOUR", "colour map: an element's colour differs from every element sharing one of its global dofs; elements are grouped by equal colour", 3)
     fn = m.fn("FunctionSpace._compute_color_map")
